@@ -62,3 +62,77 @@ Proof.
   destruct (sensitivity_transform_model_spec C n ord PC T W Hc (popcount_pc_inputs _ _ HPC) HT HW v Hv) as [H1 H2].
   split; [done|]. apply H2. by apply popcount_pc_correct.
 Qed.
+
+
+(* ---- logic.popcount(m) has at least clog2(m+1) output bits: every adder of the tree is wide enough ---- *)
+Definition cap (ps : list (list string)) : nat := foldr (λ v acc, (2 ^ length v - 1) + acc) 0 ps.
+Lemma cap_app ps qs : cap (ps ++ qs) = cap ps + cap qs.
+Proof. induction ps as [|v ps IH]; simpl; [done|]. rewrite IH. lia. Qed.
+Lemma pow2_pos k : 1 ≤ 2 ^ k.
+Proof. induction k; simpl; lia. Qed.
+Lemma popcount_loop_width fuel : ∀ i ps acc o acc', Logic.popcount_loop fuel i ps acc = Ok (o, acc') → cap ps ≤ 2 ^ length o - 1.
+Proof.
+  induction fuel as [|f IH]; intros i ps acc o acc' H; [done|].
+  cbn [Logic.popcount_loop] in H. destruct ps as [|ns [|ms rest]]; [done| |].
+  - injection H as <- <-. simpl. lia.
+  - apply IH in H. rewrite cap_app in H. cbn [cap foldr] in H |- *. rewrite fmap_length, seq_length in H.
+    fold (cap rest). set (a := length ns) in *. set (b := length ms) in *.
+    assert (2 ^ a - 1 + (2 ^ b - 1) ≤ 2 ^ S (a `max` b) - 1); [|lia].
+    pose proof (pow2_pos a). pose proof (pow2_pos b).
+    assert (2 ^ a ≤ 2 ^ (a `max` b)) by (apply Nat.pow_le_mono_r; lia).
+    assert (2 ^ b ≤ 2 ^ (a `max` b)) by (apply Nat.pow_le_mono_r; lia).
+    rewrite Nat.pow_succ_r'. lia.
+Qed.
+Lemma cap_singletons (l : list string) : cap ((λ x, [x]) <$> l) = length l.
+Proof. induction l as [|x l IH]; [done|]. rewrite fmap_cons. cbn [cap foldr length]. fold (cap ((λ x, [x]) <$> l)). rewrite IH. simpl. lia. Qed.
+
+Lemma popcount_outputs_width m PC W : Logic.popcount m = Ok PC → clog2 (m + 1) = Ok W → W ≤ size (outputs (c_g PC)).
+Proof.
+  intros HPC HW. unfold Logic.popcount, rmap, Logic.popcount_l in HPC.
+  destruct (Logic.popcount_loop _ _ _ _) as [[o acc]| | |] eqn:E; try done.
+  pose proof (popcount_loop_width _ _ _ _ _ _ E) as Hcap.
+  apply LogicPopAll.loop_inv in E as (ds & -> & _).
+  assert (Hm : m ≤ 2 ^ length o - 1).
+  { change (λ i : nat, [Logic.bitname "in_" i]) with ((λ x : string, [x]) ∘ Logic.bitname "in_") in Hcap.
+    by rewrite list_fmap_compose, cap_singletons, fmap_length, seq_length in Hcap. }
+  (* the number of outputs is length o *)
+  set (body := LogicPopAll.pc_body m ds o) in *.
+  assert (Hl : ∃ l, c_g PC = list_to_map l ∧ (l = Logic.nd "tie0" C0 false [] :: body ∨ l = body)).
+  { cbn [rbind] in HPC.
+    change (Ok (Logic.mkC "popcount" ((if existsb (λ ni : string * ninfo, bool_decide ("tie0" ∈ n_fi ni.2)) body
+               then [Logic.nd "tie0" C0 false []] else []) ++ body)) = Ok PC) in HPC.
+    injection HPC as <-. cbn [c_g Logic.mkC]. eexists. split; [done|]. destruct (existsb _ _); [by left|by right]. }
+  destruct Hl as (l & -> & Hl).
+  assert (Hnd : NoDup l.*1).
+  { destruct Hl as [-> | ->]; [|apply LogicPopAll.body_NoDup]. rewrite fmap_cons. apply NoDup_cons.
+    split; [|apply LogicPopAll.body_NoDup]. intros H%LogicPopAll.body_hd. done. }
+  assert (Hsub : list_to_set (LogicOracle.names "out_" (length o)) ⊆ outputs (list_to_map l : circuit)).
+  { intros n (i & -> & Hi%elem_of_seq)%elem_of_list_to_set%elem_of_list_fmap.
+    destruct (lookup_lt_is_Some_2 o i) as [y Hy]; [lia|].
+    apply elem_of_outputs. exists (mk_node Buf true (list_to_set [y])). split; [|done].
+    apply elem_of_list_to_map_1; [exact Hnd|].
+    assert ((Logic.bitname "out_" i, mk_node Buf true (list_to_set [y])) ∈ body) as Hb.
+    { unfold body, LogicPopAll.pc_body. rewrite !elem_of_app. right; right. apply LogicPopAll.elem_of_outs. by exists i, y. }
+    destruct Hl as [-> | ->]; [by right|done]. }
+  apply subseteq_size in Hsub. rewrite size_list_to_set in Hsub by apply LogicPopAll.names_NoDup.
+  unfold LogicOracle.names in Hsub. rewrite fmap_length, seq_length in Hsub.
+  destruct (clog2_spec _ _ HW) as (_ & _ & [->|Hlow]); [lia|].
+  assert (W - 1 < length o); [|lia]. apply (Nat.pow_lt_mono_r_iff 2); [lia|].
+  pose proof (pow2_pos (length o)). lia.
+Qed.
+
+(* the sensitivity circuit built with logic.popcount: no assumption about the popcount circuit left *)
+Theorem sensitivity_transform_popcount_full C n ord PC T W :
+  comb (c_g C) → Logic.popcount (length ord) = Ok PC →
+  sensitivity_transform C n ord PC = Ok T → clog2 (length ord + 1) = Ok W →
+  ∀ v, consistent (c_g T) v →
+    (∀ s, s ∈ ord → v ("dif_out_" ++ s) = true ↔ flips (c_g C) n s v) ∧
+    sen_bits v W = take_bits W (count (c_g C) n ord v).
+Proof.
+  intros Hc HPC HT HW. eapply sensitivity_transform_popcount_spec; eauto. by eapply popcount_outputs_width.
+Qed.
+Lemma popcount_discharge m PC W : Logic.popcount m = Ok PC → clog2 (m + 1) = Ok W →
+  pc_inputs (c_g PC) m ∧ SensitivityProofs.popcount_correct (c_g PC) m W.
+Proof.
+  intros H HW. split; [by apply popcount_pc_inputs|]. apply popcount_pc_correct; [done|]. by eapply popcount_outputs_width.
+Qed.
